@@ -1902,6 +1902,8 @@ def w_accept(failure, tier):
         ("a nested element that is not an object", dict(good(105), c=["text"])),
         ("an array inside the array of a nested field", dict(good(109), c=[[{"a": "u"}]])),
         ("an empty array inside the array of a nested field", dict(good(110), c=[[]])),
+        ("a null slot in the array of a non-nullable nested field", dict(good(111), c=[{"a": "u"}, None])),
+        ("only a null in the array of a non-nullable nested field", dict(good(112), c=[None])),
         ("an unknown field inside a nested object", dict(good(106), c=[{"a": "u", "zz": 1}])),
         ("a number in a text field", dict(good(107), body=42)),
         ("a blank id", dict(good(108), _id="  ")),
